@@ -7,10 +7,17 @@ mod c04;
 mod c05;
 mod simple_model;
 mod c06;
+mod c07;
 mod c11;
 mod c12;
 mod c13;
 mod c14;
+mod c15;
+mod c16;
+mod c17;
+mod c18;
+mod c19;
+mod rops;
 mod dev;
 mod gen;
 mod kit;
@@ -42,7 +49,7 @@ fn main() {
         budget_override: None,
         strict: false,
     };
-    let mut i = 2;
+    let mut i = if id == "c07-digest" { args.len() } else { 2 };
     while i < args.len() {
         match args[i].as_str() {
             "quick" => tier = Tier::Quick,
@@ -77,6 +84,18 @@ fn main() {
         "C12" => run_check::<c12::C12>(&opts),
         "C13" => run_check::<c13::C13>(&opts),
         "C14" => run_check::<c14::C14>(&opts),
+        "C15" => run_check::<c15::C15>(&opts),
+        "C16" => run_check::<c16::C16>(&opts),
+        "C17" => run_check::<c17::C17>(&opts),
+        "C07" => run_check::<c07::C07>(&opts),
+        "c07-digest" => {
+            let seed = args.get(2).and_then(|s| s.parse().ok()).unwrap_or(0);
+            let n = args.get(3).and_then(|s| s.parse().ok()).unwrap_or(10);
+            println!("{}", c07::backend_digest(seed, n));
+            0
+        }
+        "C18" => run_check::<c18::C18>(&opts),
+        "C19" => run_check::<c19::C19>(&opts),
         "preflight" => match preflight::decoder_preflight() {
             Ok(()) => {
                 println!("preflight ok");
